@@ -31,8 +31,8 @@ import vlib
 # What parser.go refuses on purpose although the grammar can spell it.  None of these is generated:
 # SqlGrammar!StmtWF filters them out of the universe.
 REFUSED_BY_DESIGN = [
-    ("select list with a column that is neither grouped nor aggregated, or a GROUP BY column matching two select columns",
-     "parser.go validateGroupByFields (ErrInvalidGroupByColumn / ErrAmbiguousGroupByColumn); mirrored by SqlGrammar!GroupOK"),
+    ("select list with a column that is neither grouped nor aggregated, or a GROUP BY column matching two select columns or none",
+     "parser.go validateGroupByFields (ErrInvalidGroupByColumn / ErrAmbiguousGroupByColumn / ErrGroupByColumnNotSelected); mirrored by SqlGrammar!GroupOK"),
     ("`*` with an alias or next to other select items; clauses after a select list without FROM",
      "parser.go SelectList returns after `*`; Select requires FROM when tokens remain; mirrored by SqlGrammar!SelectWF"),
 ]
